@@ -13,6 +13,14 @@ CHECKS = {
    text="The Machine specification (step counter charged at the five sites, budget, poll-indexed cancellation, physical/nesting/tail/macro limits, per-evaluation refill) predicts the full transcript of every program under EVERY step budget n=1..S+1, under cancellation at every poll index and under small limits; each is replayed on the real interpreter and compared (values, conditions, effects with their step stamps, frames, nesting). The prefix / enough-budget / bound relations are also evaluated real-vs-real; Kernel exhaustive with a finite budget checks K1 K2 K9 K10 and the action properties BudgetStops, StepMonotone; hook traces are validated by KernelTrace including the rule that a step charged beyond the budget may only be followed by unwinding.",
    note="Cancellation is modelled as the k-th poll of ctx.Err() (deterministic), not wall-clock deadlines; MaxAlloc and a pending time:sleep are not part of this check (sleep: C15). Budgets are enumerated completely for programs with S <= 90 steps (400 thorough), sampled above.",
    technique="TLA+ model checking with TLC; spec-predicted transcripts for every budget replayed on the code; trace validation", ref="DESIGN.md 6 C04"),
+ "C05": dict(engine="Kernel+Machine+KernelTrace",
+   text="Kernel exhaustive over histories of entries in which every activation kind can fail in every way (error, limit, host panic, failing handler, failing nested load) checks K10 CleanAtRest, K10ctx (bridged evaluation context restored) and frame/activation balance in every reachable state. The Machine predicts histories of evaluations through the Load, FunCall, MacroCall and SpecialOpCall entry points drawn from a pool of mutating and failing forms, and the same histories with a failure injected at every step index through the budget; after every entry point returns the driver reads the real runtime's rest state (frames, pending condition, nesting, package, context) and every later evaluation is compared with the specification's prediction, which sees completed effects only. Hook traces must be clean at every outermost end event.",
+   note="Trusted: the driver's rest-state reader (public API: Stack.Frames, CurrentCondition, EvalNesting, Package, Context). LoadProgram / LoadFile entry points are exercised only through load-string / C20. Bounded: Kernel G<=5 (6 thorough), 3 entries; histories of 4 evaluations from a pool of 26 forms.",
+   technique="TLA+ model checking with TLC; spec-predicted histories with failure injection replayed on the code; trace validation", ref="DESIGN.md 6 C05"),
+ "C06": dict(engine="Kernel+Machine+KernelTrace",
+   text="The Machine specification states the matching rule (bindings in order, name equality or `condition` unless the error is a recovered panic), handler invocation with (quoted name, data...), the condition stack, rethrow by identity, ignore-errors with the panic carve-out; TLC computes the transcript of every nesting of handler-bind / ignore-errors / progn to the depth bound with every raise kind at every position, and each is compared with the real interpreter: which handler ran with which arguments, values, skipped forms, and the identity (pointer), condition, data and stack of the error the host finally receives. Kernel exhaustive checks the condition-stack discipline K12; cpush/cpop events are validated on real traces.",
+   note="Bounded: nestings exhaustive to depth 1 (328 expressions) plus a 1500-sample of depth 2 in the quick tier; depth 2 exhaustive (13128) plus a depth-3 sample in the thorough tier. Binding lists are a curated set of 8 over the specifiers a, b, condition, internal-panic.",
+   technique="TLA+ model checking with TLC; spec-predicted transcripts replayed on the code; trace validation", ref="DESIGN.md 6 C06"),
 }
 
 NA_REASON = "check under construction (see DESIGN.md section 6); not yet claimed"
